@@ -80,6 +80,7 @@ type pathState struct {
 	loopCap  int
 	funcs    map[string]int
 	noAlts   bool
+	env      map[string]value
 	panicSite string
 }
 
